@@ -2,7 +2,7 @@
 
 Proved (Coq, over summaries regenerated from /repo's AST on every run): the stack discipline - library routines whose
 segments between suspension points are balanced never disturb the default-filter stack the caller's own blocks
-established, under any interleaving (Props/C08.v); the routines that do not pass are named (Props/C08Refuted.v).
+established, under any interleaving (Props/C08.v: C08_frame_real for all routines of the current source).
 
 Differential testing (this file, nothing proved): (a) the stack discipline observed on the running code through an
 instrumented deque in place of `_delb.nodes.default_filters` (depth/top before, inside loop bodies and after calls,
@@ -564,17 +564,6 @@ def run(ctx, args):
     ctx.regen(["GenFilterFx.v"])
     ctx.build("Props/C08.vo")
     static_check(ctx)
-    open_stack = [f for f in ctx.findings if f["status"] == "open" and f["cls"] in
-                  ("yield-under-altered-default-filters", "decorated-generator-function")]
-    if open_stack:
-        # the refutations are expected to hold only while the findings are open
-        n_broken = len(ctx.broken)
-        if not ctx.build("Props/C08Refuted.vo"):
-            still = [f for f in open_stack if replay_open(f)]
-            if not still:
-                del ctx.broken[n_broken:]
-                ctx.notes.append("Props/C08Refuted.v no longer compiles and the witnesses no longer fail: the findings "
-                                 "appear to be repaired; remove them from findings.d/C08.json and Filters.known_offenders")
     saved = list(nodes.default_filters)
     try:
         if args.replay:
